@@ -131,6 +131,8 @@ pub struct Loc {
     pub rel: VC,
     pub writer: (u32, u32),
     pub ver: u64,
+    /// threads whose first would-succeed `compare_exchange_weak` on this location has already failed spuriously
+    pub weak_failed: u8,
 }
 
 #[derive(Clone, Debug, Default)]
@@ -237,10 +239,30 @@ pub(crate) fn new_loc(init: u64) -> u32 {
     let _nt = crate::alloc::NoTrack::new();
     with_exec(|e| {
         let id = e.locs.len() as u32;
-        e.locs.push(Loc { val: init, rel: [0; MAXT], writer: (u32::MAX, 0), ver: 0 });
+        e.locs.push(Loc { val: init, rel: [0; MAXT], writer: (u32::MAX, 0), ver: 0, weak_failed: 0 });
         id
     })
     .unwrap_or(u32::MAX)
+}
+
+/// Environment choice for `compare_exchange_weak`: the first attempt of every thread at every location that would
+/// succeed fails spuriously (an outcome the memory model allows for any attempt). Code with a retry loop pays one
+/// extra iteration; an unretried weak CAS shows its failure path in every execution.
+pub(crate) fn weak_cas_fails_spuriously(id: u32) -> bool {
+    if !active() || id == u32::MAX {
+        return false;
+    }
+    with_exec(|e| {
+        let bit = 1u8 << e.cur.min(MAXT - 1);
+        let l = &mut e.locs[id as usize];
+        if l.weak_failed & bit == 0 {
+            l.weak_failed |= bit;
+            true
+        } else {
+            false
+        }
+    })
+    .unwrap_or(false)
 }
 
 #[inline]
